@@ -394,6 +394,14 @@ def sk_writes(tier):
     # history: the whole target was filled with a whole number (a Python int) before the keyed write of fractions
     for pat, rhs in (("I", "number"), ("IN", "number"), ("NS", "number"), ("LN", "number"), ("IN", "array"), ("NS", "array"), ("NN", "array")):
         out.append({"x": ALPHA[: len(pat)], "pat": pat, "form": "dict_letter", "rhs": rhs, "history": "filled_with_an_int"})
+    # dimensions that share their *name* and differ by letter (origin / destination regions of a trade array): keys by letter
+    for k in (2, 3):
+        for pat in patterns(k, "NISL"):
+            if set(pat) == {"N"} or (k == 3 and tier == "quick" and pat.count("N") != 2):
+                continue
+            out.append({"x": ALPHA[:k], "pat": pat, "form": "dict_letter", "rhs": "number", "names": "same"})
+            if "L" not in pat:
+                out.append({"x": ALPHA[:k], "pat": pat, "form": "dict_letter", "rhs": "array", "names": "same"})
     if tier == "quick":
         for pat in displaced_patterns("SL"):
             out.append({"x": ALPHA[:4], "pat": pat, "form": "dict_letter", "rhs": "number"})
@@ -430,6 +438,8 @@ def region_dims(W, K, D):
 )
 def u_write(W, sk):
     D = mk_dims(W, sk["x"], numeric_ok=True)
+    if sk.get("names") == "same":
+        D = {l: W.dim(l, name="Region", numeric_ok=True) for l in sk["x"]}
     x = W.array("x", [D[l] for l in sk["x"]])
     K = Key(W, D, sk["x"], sk["pat"], sk["form"], order=sk.get("order"))
     key = K.key()
